@@ -141,7 +141,7 @@ for _p, _txt in (('C01', 'every returned block checked against mapping registry,
     add(_p, level='exploration',
         rule='seeded allocate/free/deallocate/realloc histories on 16 policy configurations (aligned/unaligned map, 5 geometries, poison on/off, 3 mutex types) + all sequences of length 6 on nearly-full tiny slabs: ' + _txt,
         jobs=[job('slab', 'c01_slab.cpp', args=['--arg', 'prop=' + _p], shards={'quick': 12, 'thorough': 16}, hang_is_violation=True),
-              job('slab_track_regions', 'c01_slab.cpp', defines=['-DFRG_SLAB_TRACK_REGIONS'], args=['--arg', 'prop=' + _p], shards={'quick': 6, 'thorough': 16}, quick_args=['--scale', '0.34'], hang_is_violation=True)]
+              job('slab_track_regions', 'c01_slab.cpp', defines=['-DFRG_SLAB_TRACK_REGIONS=0'], args=['--arg', 'prop=' + _p], shards={'quick': 6, 'thorough': 16}, quick_args=['--scale', '0.34'], hang_is_violation=True)]
              # C03 across threads: the controlled-scheduler driver of C05 with a poisoning policy whose callbacks are scheduling points
              + ([job('slab_sched_poison', 'c05_slab_sched.cpp', args=['--arg', 'prop=C03'], shards={'quick': 5, 'thorough': 8})] if _p == 'C03' else []),
         min_evaluations={'quick': 10000, 'thorough': 100000},
@@ -213,7 +213,10 @@ add('C10',
     level='exploration',
     rule='rcu_radixtree with a single writer and concurrent finders: E3 bounded-preemption DFS (bound 3/4) over 10 scenarios covering the three insertion cases (empty slot, prefix split at the root / middle / deep, direct leaf slot) and erase, PCT/random schedules over random scripts; E2 tree lifetimes with 3-6 free-running finder threads under ThreadSanitizer (plain node and value fields)',
     jobs=[job('radix_sched', 'c10_radix.cpp', shards={'quick': 10, 'thorough': 16}),
-          job('radix_tsan', 'c10_tsan.cpp', flavour='tsan', shards={'quick': 4, 'thorough': 8})],
+          job('radix_tsan', 'c10_tsan.cpp', flavour='tsan', shards={'quick': 4, 'thorough': 8}),
+          # the same drivers with a trivially destructible payload
+          job('radix_sched_trivial_value', 'c10_radix.cpp', defines=['-DC10_TRIVIAL_VALUE'], shards={'quick': 6, 'thorough': 12}),
+          job('radix_tsan_trivial_value', 'c10_tsan.cpp', flavour='tsan', defines=['-DC10_TRIVIAL_VALUE'], shards={'quick': 3, 'thorough': 6})],
     min_evaluations={'quick': 5000, 'thorough': 100000},
     min_counters={'schedules': 5000, 'finds_checked': 10000, 'finds_overlapping_a_write': 1000, 'dfs_spaces_exhausted': 5, 'tsan_finds': 100000, 'tsan_tree_lifetimes': 100},
     assumptions=['the controlled scheduler explores sequentially consistent interleavings at the hook points; missing release/acquire edges are observed by ThreadSanitizer on plain node/value fields',
@@ -225,7 +228,10 @@ add('C05',
     level='exploration',
     rule='slab_pool shared by threads: E3 bounded-preemption DFS over 13 scenarios (4 of them with a poisoning policy whose callbacks are scheduling points; two workers find a class empty at once, free into the slab another worker allocates from, slab becoming full/partial, large+small, moving realloc, three workers) and PCT/random schedules of random scripts with switches at every pool mutex operation, hook point and policy callback; E2 2-8 free-running threads with cross-thread frees under ThreadSanitizer for three mutex types + offline overlap check of the recorded history',
     jobs=[job('slab_sched', 'c05_slab_sched.cpp', shards={'quick': 8, 'thorough': 16}),
-          job('slab_tsan', 'c05_tsan.cpp', flavour='tsan', shards={'quick': 4, 'thorough': 8})],
+          job('slab_tsan', 'c05_tsan.cpp', flavour='tsan', shards={'quick': 4, 'thorough': 8}),
+          # the region-tracking configuration of slab.hpp (a shared tree of all frames, under its own mutex) with free-running threads
+          job('slab_tsan_track_regions', 'c05_tsan.cpp', flavour='tsan', defines=['-DFRG_SLAB_TRACK_REGIONS'], shards={'quick': 3, 'thorough': 6}),
+          job('slab_sched_track_regions', 'c05_slab_sched.cpp', defines=['-DFRG_SLAB_TRACK_REGIONS'], shards={'quick': 4, 'thorough': 8}, quick_args=['--scale', '0.3'])],
     min_evaluations={'quick': 5000, 'thorough': 100000},
     min_counters={'schedules': 5000, 'dfs_spaces_exhausted': 4, 'reentrant_policy_allocations': 1000, 'schedules_with_concurrent_slab_construction_or_extra_map': 500, 'tsan_allocations': 100000, 'tsan_cross_thread_frees': 1000, 'tsan_reallocs': 1000},
     assumptions=['the controlled scheduler explores sequentially consistent interleavings at lock operations, hook points and policy callbacks; data races on pool state are observed by ThreadSanitizer in the free-running runs',
